@@ -92,21 +92,22 @@ CLAIMED = {
 SESSION_NOTE = " Second generation (after independently seeded changes, DESIGN section 10.1): interference sessions re-check RETAINED results after later calls, after 40-70 further calls, after the results were modified through their public API, with inputs repeated and with input memory / packet objects recycled for a varied input of the same length; decoder inputs carry a canary in their spare capacity."
 WAVE3_NOTE = {
     "C01": "payloads shaped like PES/PSI/packet starts; FromBytes over the sizes of other framings with the packet at an offset",
-    "C02": "PES/PSI-shaped payload data; Create with a window of a caller-owned option slice, then all of it",
+    "C02": "PES/PSI-shaped payload data; Create with a window of a caller-owned option slice, then all of it; zero-length data as nil and as empty",
+    "C03": "setter data sits in a caller buffer with live bytes behind it; the packet's own adaptation field handed back to SetAdaptationField",
     "C04": "decoders handed slices longer than the field; non-value bits of the PTS/DTS fields inside a PES header flipped",
-    "C06": "program map sections in front of the subject section",
+    "C06": "program map sections in front of the subject section; pointer_field up to 255 for the payload-level API",
     "C07": "free section_number/last_section_number and a second, different PID-0 packet later in the stream",
-    "C08": "sibling descriptors (same type, event id, segment numbers)",
-    "C09": "UPID arguments are adjacent windows of one caller buffer (must stay intact); own component / MID lists handed back reordered",
-    "C10": "sub-segment fields and stream-switch-shaped multiple-UPID lists in five shapes",
+    "C08": "sibling descriptors (same type, event id, segment numbers); alignment_stuffing bytes in decoder inputs",
+    "C09": "UPID arguments are adjacent windows of one caller buffer (must stay intact); own component / MID lists handed back reordered; alignment stuffing in decoded inputs; adopting a descriptor of another signal and editing it through the caller's handle; decorated UPID / ComponentOffset list elements",
+    "C10": "sub-segment fields and stream-switch-shaped multiple-UPID lists in five shapes; cancel indicator, pts_adjustment splits, descriptors inside a decorator type",
     "C12": "instants handed over in non-UTC zones",
-    "C13": "filter inputs with a stale CRC_32 of their own",
+    "C13": "filter inputs with a stale CRC_32 of their own; session phase Extend (the caller appends to every returned slice, retained results re-checked)",
     "C14": "requested values outside 13 bits that alias stream PIDs under truncation",
-    "C15": "pairs at power-of-two distances (drawn and enumerated)",
+    "C15": "pairs at power-of-two distances (drawn and enumerated); round durations of the 90 kHz clock",
     "C16": "a PeekScanner with only the interface's methods",
-    "C17": "byte-identical consecutive packets; a predicate that is done and failing at once",
-    "C18": "packet writers that also have their own Write; timeout-like reader errors before a second ReadFrom",
-    "C19": "decorated (non-library) implementations of the descriptor interface as arguments",
+    "C17": "byte-identical consecutive packets; a predicate that is done and failing at once; a second live accumulator fed other packets and Reset at the same moments",
+    "C18": "packet writers that also have their own Write; timeout-like reader errors before a second ReadFrom; reader errors that wrap io.EOF / io.ErrUnexpectedEOF",
+    "C19": "decorated (non-library) implementations of the descriptor interface as arguments; cancel indicator on API-built descriptors; signal time split into pts_time + pts_adjustment",
     "C20": "eight originalCodec arguments for the Dolby Vision codec string",
 }
 SESSION_IDS = {"C01", "C02", "C04", "C06", "C07", "C08", "C09", "C11", "C12", "C13", "C14", "C20"}
@@ -129,7 +130,7 @@ def main():
                 "evidence_file": "/verif/evidence/%s.json" % pid,
                 "replay_cmd_template": "./check %s --replay {path}" % pid,
                 "engine": "gots-pbt-harness",
-                "level_claimed": {"category": "exploration", "text": text + (SESSION_NOTE if pid in SESSION_IDS else "") + ((" Third round (DESIGN section 10.2), generator widened with: " + WAVE3_NOTE[pid] + ".") if pid in WAVE3_NOTE else ""), "design_ref": ref},
+                "level_claimed": {"category": "exploration", "text": text + (SESSION_NOTE if pid in SESSION_IDS else "") + ((" Third and fourth round (DESIGN sections 10.2, 10.3), generator widened with: " + WAVE3_NOTE[pid] + ".") if pid in WAVE3_NOTE else ""), "design_ref": ref},
                 "level_note": note,
                 "technique": tech + ("; interference sessions (retained results, repeated / recycled inputs) over the same oracle" if pid in SESSION_IDS else ""),
             })
